@@ -307,7 +307,7 @@ def expected_history(chain, q):
 
 
 def check_index(sim, label, *, queries=None, check_history=True, check_utxos=True, check_fs=True,
-                check_state=True):
+                check_state=True, check_limits=False):
     '''Compare every observable of the real index with the reference chain sim.chain.'''
     eng, db = sim.eng, sim.db
     chain = sim.chain
@@ -354,7 +354,7 @@ def check_index(sim, label, *, queries=None, check_history=True, check_utxos=Tru
                       sig('history-count'))
             eng.prove(z3_and([z3_and([deep_eq(h, eh), deep_eq(ht, eht)]) for (h, ht), (eh, eht) in zip(got, exp)]),
                       f'{label}: history entries wrong or out of order', sig('history'))
-            for limit in range(0, len(exp) + 2):
+            for limit in (range(0, len(exp) + 2) if check_limits else ()):
                 gl = run(db.limited_history(q, limit=limit))
                 el = exp[:limit]
                 eng.prove(len(gl) == len(el) and z3_and(
